@@ -130,3 +130,5 @@ R.DEFAULT_POLICIES.update({
 R.DEFAULT_POLICIES.update({
     "Flags.all": "inline", "Flags.__init__": "inline", "Flags.__iter__": "inline", "Flags.to_set": "inline",
 })
+
+R.DEFAULT_POLICIES["attrs"].update({"Node.lineno": "Int", "Node.col_offset": "Int"})
